@@ -14,6 +14,13 @@ BASIC = [
      "1 lock 1", "obs", "1 unlock 1", "2 lock 2", "2 unlock 2", "obs"],
     # owner free, then a fresh segment of the new size
     ["0 new-shm 0 m0 100", "0 wr 0 0 7", "1 new-shm 1 m0 0", "1 own 1", "1 free 1", "obs", "2 new-shm 2 m0 %d" % (P + 1), "2 rd 2 0", "obs", "0 rd 0 0", "0 free 0", "obs"],
+    # READONLY handles: creator or follower, they see every store of the others, report the same sizes, share the lock
+    ["0 new-shm 0 m0 %d ro" % (P + 1), "obs", "1 new-shm 1 m0 0", "1 wr 1 %d 255" % P, "1 wr 1 0 1", "0 rd 0 %d" % P, "0 rd 0 0", "obs", "2 new-shm 2 m0 100 ro", "1 wr 1 99 17", "2 rd 2 99", "obs",
+     "0 lock 0", "obs", "0 unlock 0", "2 lock 2", "obs", "2 unlock 2", "2 free 2", "obs", "0 free 0", "obs", "1 new-shm 3 m0 5 ro", "obs"],
+    ["0 new-shm 0 m1 %d" % (2 * P), "0 wr 0 %d 200" % (2 * P - 1), "1 new-shm 1 m1 %d ro" % (3 * P), "1 rd 1 %d" % (2 * P - 1), "0 wr 0 %d 0" % (2 * P - 1), "1 rd 1 %d" % (2 * P - 1), "1 own 1", "1 free 1", "obs",
+     "2 new-shm 2 m1 1 ro", "2 rd 2 0", "obs"],
+    # names that differ only in the first byte (m0/m1) or only in the last one (m2/m3): four different memories
+    ["0 new-shm 0 m0 100", "0 new-shm 1 m1 200", "1 new-shm 2 m2 300", "1 new-shm 3 m3 400", "0 wr 0 5 1", "0 wr 1 5 2", "1 wr 2 5 3", "1 wr 3 5 4", "obs", "0 lock 0", "1 lock 2", "obs", "0 lock 1", "1 lock 3", "obs"],
     # a fresh name with size 0 cannot be created
     ["0 new-shm 0 m2 0", "obs", "0 new-shm 0 m2 1", "obs"],
 ]
@@ -77,6 +84,19 @@ def race_cases(rng, thorough):
     return out
 
 
+def unmappable_scenarios():
+    """creations that fail in ftruncate / mmap for a reason the model does not contain (a size no object can have):
+    nothing may be left behind, the name stays usable, a later creator gets the size it asks for.
+    (ops, expected API view per op; None = any)"""
+    fails = lambda g: g == "fail"
+    gone = lambda g: g.startswith("s0=- s1=- s2=- s3=- m0=- m1=- m2=- m3=-") and "H" not in g and "#" not in g
+    out = []
+    for size in (2 ** 63, 2 ** 63 + P, 2 ** 64 - 1, 2 ** 62, 2 ** 47 + 1):
+        out.append((["0 new-shm 0 m0 %d" % size, "obs", "1 new-shm 1 m0 0", "obs", "1 new-shm 1 m0 %d" % P, "1 wr 1 5 9", "2 new-shm 2 m0 %d" % size, "2 rd 2 5", "2 size 2", "0 new-shm 0 m0 0 ro", "0 lock 0"],
+                    [fails, gone, fails, gone, "ok %d" % P, "ok", "ok %d" % P, "09", str(P), "ok %d" % P, "ok"]))
+    return out
+
+
 def run(chk):
     cfg = pv.repo_config()
     proof_ok, driver_ok, detail = pv.proof_stage(chk, ["PV.Props.C07"])
@@ -110,9 +130,14 @@ def run(chk):
     R.run(races, batch=30)
     R.run(rnd, batch=10)
     chk.cov["finding_cases"] = dict(R.sigs)
-    if thorough:
-        for (n, it) in ((4, 20000), (8, 8000), (16, 3000)):
-            ipc.run_stress(chk, exe, ["stress-shm", n, it], "C07 lock stress")
+    for ops, expect in unmappable_scenarios():
+        if not ipc.run_expect(chk, fam, ops, expect, "C07 creation with an impossible size"):
+            R.found = True
+            break
+    chk.bump("unmappable-size scenarios", len(unmappable_scenarios()))
+    # real processes contending for p_shm_lock around a non-atomic counter (quick: short runs)
+    for (n, it) in (((4, 20000), (8, 8000), (16, 3000)) if thorough else ((3, 3000), (6, 1000))):
+        ipc.run_stress(chk, exe, ["stress-shm", n, it], "C07 lock stress")
     R.conclude(BASIC + races[-60:] + crash + eintr + races[:-60] + rnd, "C07 shared memory")
     chk.cov["harness_leftovers_in_dev_shm"] = fam.leftovers
     chk.cov["rule"] = ("op files over 3 worker processes x 4 names x 16 handles: p_shm_new with sizes 1..3 pages (re-open smaller / larger / zero / equal), byte stores and loads at offsets biased to 0, size-1 and page borders, "
